@@ -149,6 +149,17 @@ func c09Run(c core.Case, env *core.Env) core.Result {
 		return r
 	}
 
+	// every third run: one party gets two racing Start() calls (an application that retries, or two components that
+	// both think they own the session). Exactly one may succeed, the other must come back with an error, and nothing else
+	// may change. Deliveries to that party are held until both calls are back, so that "already started" is the only
+	// reason a Start can have for failing.
+	var dsNode *sim.Node
+	dsGate := make(chan struct{})
+	if c.P.Int("run")%3 == 1 {
+		dsNode = w.Nodes[rnd(len(w.Nodes))]
+	}
+	var dsNil, dsErr int64
+
 	var wg sync.WaitGroup
 	var spawned int64
 	var errMu sync.Mutex
@@ -188,6 +199,13 @@ func c09Run(c core.Case, env *core.Env) core.Result {
 							} else {
 								time.Sleep(time.Duration(delay) * time.Microsecond)
 							}
+							if rc == dsNode {
+								select {
+								case <-dsGate:
+								case <-done:
+									return
+								}
+							}
 							sp := sim.SpecOf(w.Proto, msg.Short)
 							op := histOp{client: cl, kind: "update", key: msg.Key(), flagOK: sp != nil && sp.Bcast == msg.Bcast, call: tick()}
 							var ok bool
@@ -219,6 +237,16 @@ func c09Run(c core.Case, env *core.Env) core.Result {
 	}
 	// Start of every party in its own goroutine, at a seeded moment
 	order := rg.Perm(len(w.Nodes))
+	var dsWG sync.WaitGroup
+	if dsNode != nil {
+		for i, n := range w.Nodes {
+			if n == dsNode {
+				order = append(order, i) // a second Start goroutine for this party
+			}
+		}
+		dsWG.Add(2)
+		go func() { dsWG.Wait(); close(dsGate) }()
+	}
 	for _, i := range order {
 		n := w.Nodes[i]
 		wg.Add(1)
@@ -231,6 +259,17 @@ func c09Run(c core.Case, env *core.Env) core.Result {
 			op := histOp{client: cl, kind: "start", call: tick()}
 			serr := n.Party.Start()
 			op.ret = tick()
+			if n == dsNode {
+				if serr != nil {
+					op.errText = serr.Error()
+					atomic.AddInt64(&dsErr, 1)
+				} else {
+					atomic.AddInt64(&dsNil, 1)
+				}
+				addOp(n.Name, op)
+				dsWG.Done()
+				return
+			}
 			if serr != nil {
 				op.errText = serr.Error()
 				errMu.Lock()
@@ -314,6 +353,13 @@ func c09Run(c core.Case, env *core.Env) core.Result {
 	r.Count("hook_points_hit", atomic.LoadInt64(&hookHits))
 	for name, lo := range lockOrder {
 		r.AddSet("lock_orders", name+":"+strings.Join(lo, ">"))
+	}
+	if dsNode != nil {
+		if a, b := atomic.LoadInt64(&dsNil), atomic.LoadInt64(&dsErr); a != 1 || b != 1 {
+			r.Fail("c09:double-start:"+s.Proto, "%s: two racing Start() calls on %s: %d succeeded and %d were refused (want 1 and 1)", s.desc(), dsNode.Name, a, b)
+			return r
+		}
+		r.Count("racing_second_starts_refused", 1)
 	}
 	if len(panics) > 0 {
 		r.Fail("c09:panic:"+s.Proto, "%s: %s", s.desc(), strings.Join(panics, " | "))
@@ -460,6 +506,13 @@ func c09Linearizable(w *sim.World, n *sim.Node, ops []histOp) porcupine.CheckRes
 			op := in.(histOp)
 			switch op.kind {
 			case "start":
+				if op.errText != "" {
+					// a refused Start: legal only for a party that has been started already; it changes nothing
+					return s.started, s
+				}
+				if s.started {
+					return false, s // two Start calls on one party cannot both succeed
+				}
 				s.started = true
 				s.fresh = s.delivered == "" // nothing was stored before Start: flags are evaluated at the first update
 				return true, s
